@@ -33,4 +33,37 @@ TEXT = {
     },
 }
 
+TEXT.update({
+    "C03": {
+        "level_text": "Held on every monitored sign/verify: byte-exact equality with an independent GB/T 32918.2 signer for injected nonces (incl. the GM/T 0003.5 example and crafted e >= n digests), range + cross-verification + nonce-used==nonce-drawn for free nonces, acceptance of reference-made and OpenSSL-made signatures, ID length limits.",
+        "design_ref": "DESIGN.md section 6 C03",
+        "level_note": "Trusted: affine BigUint SM2 reference (Annex-anchored), OpenSSL corpus, RNG hook. Retry branches unreachable.",
+        "technique": "runtime differential monitor with RNG-hook nonce injection + cross-verification",
+    },
+    "C04": {
+        "level_text": "Fault enumeration over the mutated-signature space of many valid signatures: every bit flip (exhaustive per sample), boundary substitutions, modular aliases (crafted s+n), altered message/ID/key, every encoding length 0..=130; the library must never accept what the reference verifier rejects and must never panic.",
+        "design_ref": "DESIGN.md section 6 C04",
+        "level_note": "Trusted: reference verifier. One-sided rule except for the untouched signature. t=0 clause undecidable (stated).",
+        "technique": "runtime fault-injection monitor on signature bytes with reference-verifier oracle",
+    },
+    "C05": {
+        "level_text": "Held on every monitored encrypt/decrypt/kdf: exact ciphertext equality with the reference for injected k in all four layouts over every length 1..=300, interop both ways with the reference and with OpenSSL ciphertexts, KDF equality for every klen 1..=1100.",
+        "design_ref": "DESIGN.md section 6 C05",
+        "level_note": "Trusted: reference PKE/KDF (Annex-anchored), OpenSSL corpus, RNG hook.",
+        "technique": "runtime differential monitor with RNG-hook k injection + interop corpus",
+    },
+    "C06": {
+        "level_text": "Fault enumeration per sample ciphertext: all bit flips and truncations (exhaustive), all illegal PC bytes, and crafted C1 points with valid tags so that only point validation can reject; Ok is allowed only for the untouched ciphertext.",
+        "design_ref": "DESIGN.md section 6 C06",
+        "level_note": "Trusted: reference group law (a-only formulas) used to craft tags; rule is 'Ok only for the original'.",
+        "technique": "runtime fault-injection monitor on ciphertext bytes incl. key-assisted crafted invalid points",
+    },
+    "C11": {
+        "level_text": "Held on every monitored field/point/scalar-mul call against affine big-integer arithmetic: boundary and crafted operands for all field functions, the complete fixed-base table (exhaustive), all representation classes of the group law, crafted scalars (n+j sweep).",
+        "design_ref": "DESIGN.md section 6 C11",
+        "level_note": "Trusted: BigUint arithmetic; library internals reached through cfg(gm_rs_verif) wrappers.",
+        "technique": "runtime differential monitor of arithmetic calls against big-integer reference (table part exhaustive)",
+    },
+})
+
 NOT_APPLICABLE = []
